@@ -225,7 +225,7 @@ def run_native(ctx, name):
     res["raw"] = j
     return res
 
-def table_part(ctx, pid, cov, n_cases, broken_proofs):
+def table_part(ctx, pid, cov, n_cases, broken_proofs, impl=None):
     """CORR-table-seq: Go Map/MapOf vs extracted TableModel, results and layouts"""
     from . import tabseq
     exe_model, mlog = ctx.ocaml()
@@ -237,6 +237,8 @@ def table_part(ctx, pid, cov, n_cases, broken_proofs):
     tab = exe_model.replace("modelrun", "tabrun")
     stats = {}
     cases = tabseq.gen_cases(ctx.seed, n_cases, stats=stats)
+    if impl:
+        cases = [c for c in cases if (c[0][0].split()[2] == "map") == (impl == "map")]
     mism, impl, model = tabseq.check(exes["veriftab"], tab, cases)
     cov["table_cases"] = len(cases)
     cov["table_calls"] = sum(len(o) for h, o in cases)
@@ -294,7 +296,7 @@ def check_C10():
     cov["rule"] = "theorem for every key type and every hasher that is a function of the key; the hypothesis about the Go default hasher is checked over a catalogue of every comparable kind against a builtin map (native/hasher), incl. +-0, padding garbage, distinct string headers, interface-typed keys, mutation of pointees"
     return ctx.finish(cov, ["PARTIAL: that runtime.typehash-based defaultHasher is a function of the key's ==-class is checked by correspondence over the catalogue, not proved"])
 
-def sched_part(ctx, pid, cov, sets, directed=True):
+def sched_part(ctx, pid, cov, sets, directed=True, extra=()):
     """CORR-sched as a search: generated and directed scenarios on the real code under the
     controlled scheduler; histories checked against the sequential specification (porcupine),
     plus fn-count / callback / final-state / deadlock side checks; rows speaking against pid are violations"""
@@ -308,14 +310,26 @@ def sched_part(ctx, pid, cov, sets, directed=True):
     texts = []
     if directed:
         texts.append(("directed", sched.directed()))
-    for i, (cont, n, extra) in enumerate(sets):
-        texts.append(("%s %s" % (cont, " ".join(extra)), sched.gen(tools, cont, n, ctx.seed + i, list(extra) + ["-prefix", "g%d_" % i])))
+    for name, scen in extra:
+        texts.append((name, "\n".join(json.dumps(x) for x in scen) + "\n"))
+    for i, (cont, n, xargs) in enumerate(sets):
+        texts.append(("%s %s" % (cont, " ".join(xargs)), sched.gen(tools, cont, n, ctx.seed + i, list(xargs) + ["-prefix", "g%d_" % i])))
     for name, txt in texts:
         if not txt.strip():
             continue
         rows, err = sched.run_scenarios(tools, txt)
         if rows is None:
-            ctx.violation("sched-run", dict(broken=["CORR-sched run failed: " + name], log=err), failing_input=False)
+            if err.startswith("HANG"):
+                culprit = err.split("\n", 1)[1] if "\n" in err else ""
+                try:
+                    cj = json.loads(culprit) if culprit else None
+                except ValueError:
+                    cj = None
+                ctx.violation("hang", dict(correspondence="CORR-sched", scenario=cj, failing_op=json.dumps((cj or {}).get("setup", []))[-300:] + " | " + json.dumps((cj or {}).get("threads"))[:300],
+                                           observed=err.split("\n")[0], how_to_replay="echo '<scenario>' | verifsched   (does not return)"),
+                              failing_input=bool(cj), what="the real code does not return: a call hangs (outside the controlled scheduler, i.e. in the sequential phase, or in a spin the scheduler cannot see)")
+            else:
+                ctx.violation("sched-run", dict(broken=["CORR-sched run failed: " + name], log=err), failing_input=False)
             continue
         total += len(rows)
         dist[name] = len(rows)
@@ -507,7 +521,81 @@ def check_C16():
     return ctx.finish(cov, ["PARTIAL: XMachine models MapOf; the Map variant (value/key/value snapshot retry) is covered by the frozen-writer runs on the real code, its retry loop is not bounded by a theorem",
                             "expired entries are excluded (the property is about present-and-unexpired or absent keys): cache scenarios use NoExpiration"])
 
-CHECKS = {"C13": check_C13, "C16": check_C16, "C02": check_C02, "C05": check_C05, "C10": check_C10, "C11": check_C11, "C01": check_C01, "C12": check_C12, "C09": check_C09, "C06": check_C06, "C07": check_C07,
+def check_C04():
+    ctx = Ctx("C04"); cov = {}
+    broken = proof_part(ctx, "props/C04.v", ["proofs/X_basic.v", "proofs/X_inv.v", "proofs/X_c13.v", "proofs/X_inst.v", "proofs/C11_table.v", "proofs/C11_lists.v", "XMachine.v", "TableModel.v"], cov)
+    n = N(ctx, 1500, 25000)
+    from . import solo
+    fam = solo.resize_families(ctx.tier, [("MapOf_int", "default"), ("MapOf_int", "const"), ("MapOf_str", "default")])
+    sched_part(ctx, "C04", cov, extra=[("resize frozen / writer parked (directed)", fam)], sets=[("MapOf_int", n, ["-hasher", "const", "-prefill", "125", "-clear", "30"]), ("MapOf_int", n, ["-hasher", "sameidx"]),
+                                 ("MapOf_int", n, ["-hasher", "sameh2", "-prefill", "121"]), ("MapOf_str", n, ["-prefill", "121", "-clear", "30"]),
+                                 ("MapOf_int", n, ["-threads", "4", "-ops", "4", "-sched", "mix", "-keys", "5"]),
+                                 ("MapOf_int", n // 2, ["-hasher", "const", "-sched", "pct", "-ops", "5"])])
+    xcorr_part(ctx, "C04", cov, _x_sets(ctx, N(ctx, 300, 5000)))
+    table_part(ctx, "C04", cov, N(ctx, 120, 1200), [], impl="mapof")
+    if broken and not ctx.violations:
+        ctx.violation("proof", dict(broken=broken), failing_input=False, what="proof obligation no longer checks")
+    cov["rule"] = "real MapOf code (int and string keys; default, constant, same-index and same-tag hashers) under random / PCT schedules of single atomic and lock operations, tables prefilled to the grow threshold, Clear mixed in; every history checked for linearizability against map[K]V; each schedule replayed step by step on XMachine; sequential layouts compared with the table model"
+    return ctx.finish(cov, ["PARTIAL: linearizability of the concurrent machine is not yet a closed theorem (protocol invariant, sequential refinement and per-step facts are); decided by search on the real code"])
+
+def check_C03():
+    ctx = Ctx("C03"); cov = {}
+    broken = proof_part(ctx, "props/C03.v", ["proofs/C11_table.v", "proofs/C11_lists.v", "TableModel.v"], cov)
+    n = N(ctx, 2000, 30000)
+    from . import solo
+    fam = solo.resize_families(ctx.tier, [("Map", None)])
+    sched_part(ctx, "C03", cov, extra=[("resize frozen / writer parked (directed)", fam)], sets=[("Map", n, ["-prefill", "73", "-clear", "30"]), ("Map", n, []), ("Map", n, ["-keys", "6", "-ops", "4"]),
+                                 ("Map", n, ["-threads", "4", "-ops", "4", "-sched", "mix"]), ("Map", n // 2, ["-sched", "pct", "-ops", "5", "-prefill", "73"])])
+    table_part(ctx, "C03", cov, N(ctx, 200, 2000), [], impl="map")
+    if broken and not ctx.violations:
+        ctx.violation("proof", dict(broken=broken), failing_input=False, what="proof obligation no longer checks")
+    cov["rule"] = "real Map code under random / PCT schedules of single atomic operations (spin lock, value/key publication, atomic snapshot reads), tables prefilled to the grow threshold, Clear mixed in; every history checked for linearizability against map[string]interface{}; sequential layouts compared with the table model"
+    return ctx.finish(cov, ["PARTIAL: the concurrent behaviour of map.go is searched on the real code, not proved; the theorem is the sequential refinement for every hash / seed / policy"])
+
+def check_C14():
+    ctx = Ctx("C14"); cov = {}
+    broken = proof_part(ctx, "props/C14.v", ["proofs/X_basic.v", "proofs/X_inv.v", "proofs/X_c13.v", "proofs/X_c14.v", "XMachine.v"], cov) if os.path.exists(os.path.join(C.COQ, "props/C14.v")) else []
+    res = run_native(ctx, "race")
+    j = res.get("raw") or {}
+    cov["native_race"] = dict(race_enabled=j.get("race_enabled"), workloads=len(j.get("workloads", [])), race_reports=j.get("race_reports"),
+                              integrity_failures=sum(w.get("integrity_failures", 0) for w in j.get("workloads", [])),
+                              panics=sum(w.get("panics", 0) for w in j.get("workloads", [])))
+    cov["traces_validated_against_impl"] = len(j.get("workloads", []))
+    for pr in res["problems"][:2]:
+        ctx.violation("native-%d" % pr["n"], dict(broken=["native/race: " + pr["what"]], detail=str(pr["detail"])[-1500:]), failing_input=False, what=pr["what"])
+    if j.get("race_enabled") is False:
+        ctx.violation("norace", dict(broken=["race detector not available"]), failing_input=False)
+    if j.get("race_reports"):
+        ctx.violation("race", dict(correspondence="native -race run", observed="%d data race reports" % j["race_reports"], failing_op="see report heads",
+                                   reports=j.get("race_report_heads", [])[:3], how_to_replay="native/race/run.sh <repo copy> %d %s out.json" % (ctx.seed, ctx.tier)),
+                      failing_input=True, what="the Go race detector reports a data race")
+    bad = [w for w in j.get("workloads", []) if w.get("integrity_failures") or w.get("panics")]
+    for i, w in enumerate(bad[:2]):
+        ctx.violation("integrity-%d" % i, dict(correspondence="native -race run", observed=w, failing_op=w.get("name", "")), failing_input=True,
+                      what="a payload read back from the container is torn / a workload panicked")
+    inv = access_inventory(ctx)
+    cov["access_inventory"] = inv.get("summary")
+    for i, a in enumerate(inv.get("bad", [])[:3]):
+        ctx.violation("access-%d" % i, dict(broken=["access discipline: " + a], failing_op=a), failing_input=False,
+                      what="a shared slot / meta / table / flag field is accessed plainly outside the contexts the model allows: " + a[:150])
+    if broken and not ctx.violations:
+        ctx.violation("proof", dict(broken=broken), failing_input=False, what="proof obligation no longer checks")
+    cov["rule"] = "model: every write to a bucket chain is made by the holder of that bucket's lock or goes to a table no other thread can reach yet (theorem); source: every access to a shared field of map.go / mapof.go is classified (sync/atomic vs plain; plain only inside a lock region, a constructor or the resize copy into the unpublished table) by an AST pass on every run; runtime: all four containers under the Go race detector with payload-integrity checks, janitor, settings flips, Range under writes and resizes"
+    return ctx.finish(cov, ["the Go memory model itself is not modelled: happens-before is taken from the race detector's runtime and from the atomic / lock classification of the source",
+                            "PARTIAL: the race detector only sees the executions it is given"])
+
+def access_inventory(ctx):
+    exe_dir = os.path.join(C.VERIF, "harness", "inventory")
+    rc, o, e = C.sh(["go", "run", ".", "-repo", C.REPO], cwd=exe_dir, env=C.GOENV, timeout=300)
+    if rc != 0:
+        return dict(summary="inventory pass did not run: " + (o + e)[-300:], bad=["inventory pass failed to run"])
+    try:
+        j = json.loads(o)
+    except ValueError:
+        return dict(summary="inventory pass printed no JSON", bad=["inventory pass output unreadable"])
+    return dict(summary=j.get("summary"), bad=j.get("bad", []))
+
+CHECKS = {"C03": check_C03, "C04": check_C04, "C14": check_C14, "C13": check_C13, "C16": check_C16, "C02": check_C02, "C05": check_C05, "C10": check_C10, "C11": check_C11, "C01": check_C01, "C12": check_C12, "C09": check_C09, "C06": check_C06, "C07": check_C07,
           "C08": check_C08, "C15": check_C15}
 
 def replay(pid, path):
